@@ -58,5 +58,7 @@ fixed('C20', 'G3a', '8b73dff', 'merge_leading_dims(zeros(2,0), 1) raised (reshap
 fixed('C20', 'G3b', '8b73dff', 'repeat_rows(zeros(2,0), 3) raised (reshape(-1, 0))', {'function': 'repeat_rows', 'symptom': 'empty-trailing-dims-raise'})
 known('C19', 'F24', 'cubic_spline(inverse=True) in float32: the Cardano / trigonometric root formulas lose accuracy in single precision for some parameter values; e.g. PiecewiseCubicCouplingTransform(tails=linear, tail_bound=2.5).inverse at y = 2.5 returned 0.2233 and a NaN log-abs-det (float64 twin: 2.5, 7.108)',
       {'family': 'cubic', 'inverse': True, 'dtype': 'float32'})
+known('C16', 'F25', 'cubic_spline(inverse=True): for some strongly non-uniform parameter values the gradient autograd returns is NaN/inf although the value is finite (sqrt at a vanishing discriminant / masked one-root vs three-root branches); e.g. PiecewiseCubicCouplingTransform on images with perturbed ConvResidualNet parameters',
+      {'family': 'cubic', 'inverse': True, 'symptom': 'grad-nonfinite'})
 json.dump(F, open(os.path.join(HERE, 'known_findings.json'), 'w'), indent=1)
 print(len(F), 'entries')
